@@ -33,15 +33,20 @@ CLAIMED["C01"] = dict(
          "consecutive TSNs; for EVERY arrival list over the sent chunks (any loss/duplication/reordering, any TSN "
          "origin incl. wrap, plus arbitrary FORWARD-TSN) every delivered message is (stream, ppid, data) of a sent "
          "message; a TSN is accepted at most once and the reassembly assertion is unreachable (window < 2^31); "
-         "str/bytes/empty values round-trip through four distinct PPIDs. PARTIAL: the 'prefix per ordered channel' "
-         "step (delivered stream sequence numbers are consecutive) is not yet a theorem - it is observed by the "
-         "implementation oracle on receiver-level arrival lists and two-endpoint fault schedules.",
+         "ORDERED EXACTLY-ONCE DELIVERY end to end: for any message list, any initial TSN and any arrival list, "
+         "the messages delivered on an ordered stream are exactly the first n ordered messages sent on it, in "
+         "order, each once (sender numbering lemma + transport dedupe + stream automaton; 16-bit SSN window "
+         "stated as hypothesis swin, discharged for streams of at most 2^15 messages); str/bytes/empty values "
+         "round-trip through four distinct PPIDs (6 theorems). PARTIAL: unordered channels are covered by the "
+         "integrity and no-duplicate theorems only; 'eventually delivered after the network heals' is observed by "
+         "the two-endpoint scenario oracle.",
     design_ref="5 / C01",
     note="Network faults are abstracted as an arbitrary arrival list over sent chunks; SACK-path faults cannot "
-         "influence deliveries. Receiver model tied to _receive_chunk/_send_sack by differential runs (deliveries, "
-         "SACK, state after every event); two real endpoints under scripted fault schedules with virtual clock as "
-         "oracle.",
-    technique="Coq proof (induction over arrival lists, invariants) + model/implementation correspondence",
+         "influence what the receiver delivers. Tie: receiver-level differential run (extracted model vs real "
+         "InboundStream/_receive_data_chunk) and scripted two-endpoint fault scenarios on real RTCSctpTransport "
+         "objects incl. mixed reliable + partially reliable channels.",
+    technique="Coq proof (induction over arrival lists, invariants, refinement of the stream automaton) + "
+              "model/implementation correspondence + scenario oracle",
 )
 
 CLAIMED["C13"] = dict(
@@ -274,6 +279,21 @@ CLAIMED["C19"] = dict(
          "theorems.",
     technique="Coq 8.16.1 interleaving model with invariant, decreasing measure and progress; differential trace "
               "replay on the extracted model",
+)
+
+CLAIMED["C14"] = dict(
+    text="Coq proof over Model/Jsep.v with source-regenerated guard tables (Gen/Jsep.v from the ast of "
+         "rtcpeerconnection.py): refinement of the RFC 8829 state machine (outcome class and next state) for every "
+         "state satisfying the invariant and every call, rejected calls change nothing and fire no event, closed is "
+         "absorbing for every call list, slot invariant of all reachable states, outcome and event characterised "
+         "(11 theorems); differential run against real RTCPeerConnection pairs (all call sequences up to length 4 "
+         "over the core alphabet, up to 3 over the full one, plus random long ones) and an implementation-level oracle.",
+    design_ref="5 / C14",
+    note="Description content abstracted to type + per-section (kind, mid, ICE, DTLS role, rtcp-mux). Offer/answer "
+         "construction, SDP parsing, transports and concurrent close() are not modelled. pranswer/rollback are "
+         "outside the alphabet (modelled, not claimed). Private slots deviate from JSEP's pending->current move.",
+    technique="Coq proof (refinement to an abstract spec, invariant over all call lists) + regenerated tables + "
+              "extracted-model correspondence + oracle",
 )
 
 CLAIMED["C17"] = dict(
